@@ -4,6 +4,7 @@ mod corpus;
 mod csvs;
 mod gen;
 mod image;
+mod replay;
 mod rewrite;
 mod rng;
 mod threads;
@@ -25,6 +26,7 @@ fn tok_profile(profile: &str, seed: u64, n: usize, out: &mut dyn Write) {
         match profile {
             "c12" => cfg.space_pre = true,
             "nul" => cfg.nul_in_sentence = true,
+            "c11" => cfg.big_homographs = true,
             "c07tok" => cfg.kind = Some(1 + rng.below(2) as u8),
             "mixed" => cfg.kind = None,
             _ => {}
@@ -376,6 +378,9 @@ fn main() {
             let seed: u64 = args[2].parse().unwrap();
             let n: usize = args[3].parse().unwrap();
             threads::run(seed, n, &mut out);
+        }
+        "replayfile" => {
+            replay::run(&args[2], &mut out);
         }
         "corpus" => {
             let seed: u64 = args[2].parse().unwrap();
